@@ -19,6 +19,7 @@ package simrt
 import (
 	"fmt"
 	"os"
+	"regexp"
 	"runtime"
 	"runtime/debug"
 	"sync/atomic"
@@ -304,7 +305,7 @@ func (t *Task) main(fn func()) {
 		r := &Req{Kind: "done", fin: true}
 		if pv := recover(); pv != nil {
 			r.panicV = fmt.Sprint(pv)
-			r.panicSt = string(debug.Stack())
+			r.panicSt = CleanStack(string(debug.Stack()))
 		}
 		setReq(t, r)
 		raceRelease(unsafe.Pointer(&t.syncVar))
@@ -583,3 +584,17 @@ func (eofReader) Read(p []byte) (int, error) { return 0, errEOF }
 var errEOF = fmt.Errorf("EOF")
 
 func Exit(code int) { panic(fmt.Sprintf("simrt: os.Exit(%d) called by the system under test", code)) }
+
+var stackNoise = regexp.MustCompile(`0x[0-9a-f]+[?]?|goroutine [0-9]+`)
+
+// CleanStack removes what differs between two processes running the same
+// schedule (addresses, argument words, goroutine numbers) from a stack trace,
+// so that a trace line or message quoting it is the same in every replay.
+func CleanStack(st string) string {
+	return stackNoise.ReplaceAllStringFunc(st, func(m string) string {
+		if m[0] == 'g' {
+			return "goroutine N"
+		}
+		return "0x_"
+	})
+}
